@@ -492,5 +492,5 @@ func TestProp(t *testing.T)   { vf.RunAll(t) }
 func TestReplay(t *testing.T) { vf.ReplayEnv(t) }
 
 // native fuzz targets (thorough tier): the fuzzer mutates the byte stream that rapid decodes into generator choices
-func FuzzOptimalStream(f *testing.F) { vf.FuzzNamed(f, "C20", "optimal") }
+func FuzzOptimalStream(f *testing.F)   { vf.FuzzNamed(f, "C20", "optimal") }
 func FuzzEnumerateStream(f *testing.F) { vf.FuzzNamed(f, "C20", "enumerate") }
